@@ -37,6 +37,12 @@ def Rec.ofJ (j : J) : Rec :=
     hookRetryAfter := j.getInt "hookRetryAfter" }
 
 def Rec.isHook (r : Rec) : Bool := r.verb == "hook"
+
+/-- the JSON body of a hook answer (`null` is a body; anything that is not JSON is none) -/
+def Rec.hookBody (r : Rec) : Option J :=
+  match r.hookResp with
+  | some b => some b
+  | none => if r.hookRaw.trimAscii.toString == "null" then some .null else none
 def Rec.isWrite (r : Rec) : Bool := ["create", "update", "updateStatus", "delete", "patchRemove", "apply"].contains r.verb
 def Rec.ok (r : Rec) : Bool := r.code < 300
 def Rec.isRevision (r : Rec) : Bool := r.resource == revResource && r.group == revGroup
@@ -76,7 +82,17 @@ def hooks (s : SyncCase) : List Rec := s.calls.filter (·.isHook)
 
 /-- the first sync/finalize hook call (the one whose answer drives the sync; with rolling updates the
     call made for the live parent is recognised by its parent's resourceVersion-independent equality) -/
-def mainHook (s : SyncCase) : Option Rec := (s.hooks.filter (fun h => h.hook != "customize")).head?
+def mainHook (s : SyncCase) : Option Rec :=
+  let hs := s.hooks.filter (fun h => h.hook != "customize")
+  -- with rolling updates one hook call is made per live parent revision, in parallel: the call for the
+  -- latest revision is the one that was sent the parent's own (unpatched) spec
+  let key := if s.composite then "parent" else "object"
+  match s.parent with
+  | some p =>
+      match hs.find? (fun h => ((h.hookReq.getD key).getD "spec").eqv (p.getD "spec")) with
+      | some h => some h
+      | none => hs.head?
+  | none => hs.head?
 
 def finalizerName (s : SyncCase) : String := if s.composite then s.cfg.finalizer.name else s.dcfg.finalizer.name
 def finalizeEnabled (s : SyncCase) : Bool := if s.composite then s.cfg.finalize else s.dcfg.finalize
@@ -87,7 +103,7 @@ def hookParent (s : SyncCase) (h : Rec) : J := h.hookReq.getD (if s.composite th
 def hookChildren (s : SyncCase) (h : Rec) : J := h.hookReq.getD (if s.composite then "children" else "attachments")
 
 def respChildren (s : SyncCase) (h : Rec) : List J :=
-  match h.hookResp with
+  match h.hookBody with
   | some b => ((b.getD (if s.composite then "children" else "attachments")).items).filter J.isObj
   | none => []
 
